@@ -246,6 +246,15 @@ class VOpaque(V):
         self.tag = tag
 
 
+class VKeys(V):
+    """dict.keys() view of one heap map, or the intersection (`&`) of two such views."""
+
+    __slots__ = ("maps",)
+
+    def __init__(self, maps):
+        self.maps = list(maps)
+
+
 class VMap(V):
     """Finite map with concrete key set known to the engine (python dict of hashable -> V)."""
 
